@@ -5,7 +5,7 @@ VARIABLES tid, l, envbad, stall
 vars == <<tid, l, envbad, stall, mem, open, obs>>
 C == T[tid].cfg
 Init == /\ tid \in 1..Len(T) /\ l = 1 /\ envbad = FALSE /\ stall = 0 /\ open = <<>> /\ mem = MemInit(C)
-        /\ obs = [okread |-> TRUE, okack |-> TRUE, okerr |-> TRUE, pending |-> FALSE]
+        /\ obs = ObsInit
 Next ==
   /\ l <= Len(T[tid].ev)
   /\ LET iv == T[tid].ev[l][1]
